@@ -30,6 +30,26 @@ def cases(rng, tier):
     for n in range(0, maxlen + 1):
         for t in itertools.product(alpha, repeat=n):
             out.append("UNHEX " + xhex(b"".join(t)))
+    # every string of one or two ASCII characters (all 128, control characters included), and every ASCII character next to a hex digit
+    # in each position of a 4-character string
+    ascii_all = [bytes([c]) for c in range(128)]
+    for a in ascii_all:
+        out.append("UNHEX " + xhex(a))
+        for b in ascii_all:
+            out.append("UNHEX " + xhex(a + b))
+    for a in ascii_all:
+        for pos in range(4):
+            for fill in (b"0", b"a", b"F", b"9"):
+                t = [fill] * 4
+                t[pos] = a
+                out.append("UNHEX " + xhex(b"".join(t)))
+    # every 2-byte UTF-8 character (U+0080..U+07FF) as a "pair", and in front of / behind one hex digit
+    for cp in range(0x80, 0x800):
+        u = chr(cp).encode("utf-8")
+        out.append("UNHEX " + xhex(u))
+        if tier != "quick" or cp % 8 == 0:
+            out.append("UNHEX " + xhex(u + b"0a"))
+            out.append("UNHEX " + xhex(b"0" + u + b"a"))
     if tier == "quick":
         for t in itertools.product(ALPHA_Q, repeat=4):
             out.append("UNHEX " + xhex(b"".join(t)))
@@ -38,7 +58,9 @@ def cases(rng, tier):
         if rng.random() < 0.6:   # mostly valid hex, one possible defect
             s = [rng.choice(ALPHABET[:22]) for _ in range(n - n % 2)]
             r = rng.random()
-            if s and r < 0.3:
+            if s and r < 0.15:
+                s[rng.randrange(len(s))] = bytes([rng.randrange(128)])          # any ASCII character, control characters included
+            elif s and r < 0.3:
                 s[rng.randrange(len(s))] = rng.choice(ALPHABET[22:])
             elif r < 0.4:
                 s.append(rng.choice(ALPHABET))
